@@ -13,7 +13,7 @@ import re
 import warnings
 
 from harness import gen_expr as G
-from harness.common import Model, Report, rng_for, sx_scope, sx_str, unbin
+from harness.common import ImplWorker, Model, Report, rng_for, sx_scope, sx_str, unbin
 
 warnings.simplefilter("ignore")
 import numpy as np  # noqa: E402
@@ -66,7 +66,17 @@ def read_value(fn, scope: dict[str, int]):
     return ("exn", "accepted-both-0-and-1")
 
 
+_fast = []
+
+
 def fast_path():
+    if _fast:
+        return _fast[0]
+    _fast.append(_fast_path())
+    return _fast[0]
+
+
+def _fast_path():
     try:
         from dltype._lib import _parser  # optional, private
 
@@ -74,6 +84,45 @@ def fast_path():
         return _parser
     except Exception:  # noqa: BLE001
         return None
+
+
+_fd_cache: dict = {}
+_repr_first: dict = {}
+
+
+def impl_eval(a: dict) -> dict:
+    """Runs in the worker: the value the implementation gives expression a['s'] under scope a['sc']."""
+    s, sc = a["s"], {k: int(v) for k, v in a["sc"].items()}
+    viol = []
+    try:
+        if a["front"] or fast_path() is None:
+            if s not in _fd_cache:
+                _fd_cache[s] = front_door(s)
+            fn, ann = _fd_cache[s]
+            iv = read_value(fn, sc)
+            r = repr(ann)
+            # parsing is deterministic and scope independent: same postfix before / after evaluations
+            if s in _repr_first and _repr_first[s] != r:
+                viol.append({"what": "annotation changed after evaluation", "before": _repr_first[s], "after": r})
+            _repr_first.setdefault(s, r)
+            if a.get("post") and a["post"] not in r:
+                viol.append({"what": "postfix program differs from the grammar's", "repr": r, "expected_postfix": a["post"]})
+            r2 = repr(dltype.TensorTypeBase[s])
+            if r2 != r:
+                viol.append({"what": "parsing the same string twice gives different annotations", "a": r, "b": r2})
+        else:
+            d = fast_path().expression_from_string(s)
+            try:
+                iv = ("val", int(d.evaluate(dict(sc))))
+            except KeyError as ke:
+                iv = ("ref", ke.args[0])
+            except BaseException as ex:  # noqa: BLE001
+                iv = ("exn", type(ex).__name__)
+    except SyntaxError:
+        iv = ("parse", "SyntaxError")
+    except BaseException as ex:  # noqa: BLE001
+        iv = ("parse", type(ex).__name__)
+    return {"iv": [iv[0], str(iv[1])], "viol": viol}
 
 
 def model_value(ans: str):
@@ -196,52 +245,36 @@ def run(tier: str, seed: int, rep: Report, model: Model) -> dict:
         kept.append((*c, ref))
     cases = kept
     answers = model.ask_many([f"(expr {sx_str(s)} {sx_scope(sc)})" for s, _, sc, _, _ in cases])
-    fd_cache: dict[str, object] = {}
-    repr_first: dict[str, str] = {}
-    for (s, e, sc, via_front, ref), ans in zip(cases, answers):
-        mv = model_value(ans)
-        # implementation
-        try:
-            if via_front:
-                if s not in fd_cache:
-                    fd_cache[s] = front_door(s)
-                fn, ann = fd_cache[s]
-                iv = read_value(fn, sc)
-                r = repr(ann)
-                # parsing is deterministic and scope independent: same object, same postfix before/after use
-                if s in repr_first and repr_first[s] != r:
-                    rep.violation({"what": "annotation changed after evaluation", "expr": s, "before": repr_first[s], "after": r})
-                repr_first.setdefault(s, r)
-                expect_post = G.postfix_repr(e)
-                if "=" not in s and expect_post not in r:
-                    rep.violation({"what": "postfix program differs from the grammar's", "expr": s, "repr": r, "expected_postfix": expect_post})
-                r2 = repr(dltype.TensorTypeBase[s])
-                if r2 != r:
-                    rep.violation({"what": "parsing the same string twice gives different annotations", "expr": s, "a": r, "b": r2})
-            else:
-                d = parser.expression_from_string(s)
-                try:
-                    iv = ("val", int(d.evaluate(dict(sc))))
-                except KeyError as ke:
-                    iv = ("ref", ke.args[0])
-                except BaseException as ex:  # noqa: BLE001
-                    iv = ("exn", type(ex).__name__)
-        except SyntaxError:
-            iv = ("parse", "SyntaxError")
-        except BaseException as ex:  # noqa: BLE001
-            iv = ("parse", type(ex).__name__)
-        rep.case((s, tuple(sorted(sc.items()))), {"expr": s, "scope": {k: str(v) for k, v in sc.items()}, "value": str(iv[1]), "via": "front-door" if via_front else "evaluate()"} , nontrivial=G.size(e) >= 3)
-        rep.count("outcome_" + iv[0] + ("_" + str(iv[1]) if iv[0] == "exn" else ""))
-        rep.count("via_front" if via_front else "via_evaluate")
-        case = {"expr": s, "scope": {k: str(v) for k, v in sc.items()}, "impl": [iv[0], str(iv[1])], "model": [mv[0], str(mv[1])], "reference": [ref[0], str(ref[1])]}
-        if ref[0] == "val":
-            if iv != ref:
-                rep.violation({"what": "value differs from the arithmetic value of the expression", **case})
+    worker = ImplWorker("harness.props.c05")
+    try:
+        results = worker.call_many("impl_eval", [
+            {"s": s, "sc": {k: str(v) for k, v in sc.items()}, "front": via_front, "post": G.postfix_repr(e) if "=" not in s else None}
+            for (s, e, sc, via_front, ref) in cases])
+        for (s, e, sc, via_front, ref), ans, res in zip(cases, answers, results):
+            mv = model_value(ans)
+            case = {"expr": s, "scope": {k: str(v) for k, v in sc.items()}, "model": [mv[0], str(mv[1])], "reference": [ref[0], str(ref[1])]}
+            if "__skipped__" in res:
+                rep.count("not_run_after_timeouts")
                 continue
-        elif iv[0] in ("val", "parse"):
-            # undefined arithmetic / unbound name must not produce a number or a syntax error
-            rep.violation({"what": "an undefined expression produced a value", **case})
-            continue
-        if iv != mv:
-            rep.disagreement({"what": "model and implementation differ", **case})
-    return {"front_door_strings": len(fd_cache), "fast_path_available": parser is not None}
+            if "__timeout__" in res or "__error__" in res:
+                rep.violation({"what": "the implementation did not produce the value of the expression (no answer / harness error)", "detail": res, **case})
+                continue
+            for v in res["viol"]:
+                rep.violation({**v, **case})
+            iv = (res["iv"][0], int(res["iv"][1]) if res["iv"][0] == "val" else res["iv"][1])
+            rep.case((s, tuple(sorted(sc.items()))), {"expr": s, "scope": case["scope"], "value": str(iv[1]), "via": "front-door" if via_front else "evaluate()"}, nontrivial=G.size(e) >= 3)
+            rep.count("outcome_" + iv[0] + ("_" + str(iv[1]) if iv[0] == "exn" else ""))
+            rep.count("via_front" if via_front else "via_evaluate")
+            case["impl"] = [iv[0], str(iv[1])]
+            if ref[0] == "val":
+                if iv != ref:
+                    rep.violation({"what": "value differs from the arithmetic value of the expression", **case})
+                    continue
+            elif iv[0] in ("val", "parse"):
+                rep.violation({"what": "an undefined expression produced a value", **case})
+                continue
+            if iv != mv:
+                rep.disagreement({"what": "model and implementation differ", **case})
+    finally:
+        worker.close()
+    return {"fast_path_available": parser is not None, "worker_restarts": worker.restarts}
